@@ -2,9 +2,11 @@ package sim
 
 import (
 	"bytes"
+	"crypto"
 	"encoding/binary"
 	"encoding/json"
 	"fmt"
+	"github.com/foxboron/go-uefi/pkcs7"
 	"sync"
 	"time"
 
@@ -26,6 +28,9 @@ type vgCfg struct {
 	// Free: the clients are not serialised at all: they run as the Go runtime lets them (race-detector build). The
 	// updates they produce are judged afterwards like any other.
 	Free bool `json:"free,omitempty"`
+	// PreVerify: before anything is signed, the process verifies somebody else's SignedData that uses this digest
+	// algorithm ("sha384", "sha512"): other work the same process does with the library
+	PreVerify string `json:"pre_verify,omitempty"`
 }
 
 // vgOp produces one signed update. Several updates of one run stay alive until
@@ -160,6 +165,10 @@ func genVgOp(r *R) vgOp {
 		op.Var = genVarSpec(r)
 		if op.Var.Sym == "" {
 			op.Var.Attrs = uint32(r.Intn(0x100))
+			if r.Chance(1, 5) {
+				// a vendor's variable that happens to carry a well-known name
+				op.Var.Name = Pick(r, []string{"db", "dbx", "dbt", "dbr", "PK", "KEK", "SetupMode", "Boot0001"})
+			}
 		}
 	}
 	switch r.Intn(6) {
@@ -205,6 +214,9 @@ func (e *varsignEngine) Gen(seed uint64, tier string, run int) *Trace {
 		if r.Chance(1, 6) {
 			c.Zone = "UTC"
 		}
+	}
+	if pr := r.Fork("pre"); pr.Chance(1, 8) {
+		c.PreVerify = Pick(pr, []string{"sha384", "sha512"})
 	}
 	t, _ := genInstant(r)
 	if zr := r.Fork("dst"); zr.Chance(1, 5) && len(c.Zone) > 0 && c.Zone[0] != '+' && c.Zone[0] != '-' && c.Zone != "UTC" {
@@ -317,6 +329,9 @@ func (e *varsignEngine) Exec(tr *Trace, x *X) {
 		}
 		var live []alive
 		plane := NewPlane(nil)
+		if c.PreVerify != "" {
+			vgPreVerify(c.PreVerify, x)
+		}
 		one := func(i int, op vgOp) {
 			if op.Advance > 0 {
 				time.Sleep(time.Duration(op.Advance) * time.Second)
@@ -674,4 +689,27 @@ func zoneTransitions(loc *time.Location, year int) []time.Time {
 		out = append(out, time.Unix(hi, 0).UTC())
 	}
 	return out
+}
+
+// vgPreVerify: the process verifies a SignedData another signer made with SHA-384 or SHA-512 before it signs anything
+// itself. Whatever the library answers is not judged here.
+func vgPreVerify(alg string, x *X) {
+	h := crypto.SHA384
+	if alg == "sha512" {
+		h = crypto.SHA512
+	}
+	pk := Pool()[1]
+	content := []byte("somebody else's content")
+	like := &RefCMS{EContentType: oidData}
+	blob := refCMSForeignAlg(like, content, pk, time.Now().UTC(), nil, h)
+	func() {
+		defer func() { recover() }()
+		if p7, err := pkcs7.ParsePKCS7(append([]byte(nil), blob...)); err == nil {
+			ok, verr := p7.Verify(pk.Cert)
+			x.Logf("pre-verify of a %s SignedData: %v %v", alg, ok, verr)
+		} else {
+			x.Logf("pre-verify of a %s SignedData: parse: %v", alg, err)
+		}
+	}()
+	x.Probe("verified_foreign_digest_algorithm_first")
 }
